@@ -644,13 +644,13 @@ def work_sched(item, col):
     fn = L["sched"].linear_schedule
     full = item["full"]
     fracs = [0.01, 0.05, 0.1, 0.3, 0.5, 0.75, 1.0]  # 0.3 and 0.75 are no unit fractions 1/n
-    pairs = [(1.0, 0.1), (0.4, 1.0)]
+    pairs = [(1.0, 0.1), (0.4, 1.0), (0.5, 0), (1, 0.25)]  # the last two: an end / a start given as a Python int
     if full:
         fracs = [0.001, 0.01, 0.02, 0.05, 0.1, 0.25, 1.0 / 3.0, 0.5, 0.75, 0.9, 0.99, 1.0]
         pairs += [(1.0, 0.0), (0.0, 1.0), (0.5, 0.5), (-1.0, 1.0), (2.0, -3.0)]
     s = item["seed"] % 3
     if s:
-        pairs = [(a + 0.125 * s, b - 0.0625 * s) for a, b in pairs]
+        pairs = [(a + 0.125 * s if isinstance(a, float) else a, b - 0.0625 * s if isinstance(b, float) else b) for a, b in pairs]
     for T, f, (st, en) in itertools.product(item["T"], fracs, pairs):
         base = dict(total_timesteps=T, start=st, end=en, fraction=f)
         p = Fraction(T) * Fraction(f)  # exact product of the int and the double
